@@ -40,5 +40,6 @@ NoFaults  == {}
 NoExcl    == {}
 MixOnly   == {"mix"}
 AllFeats  == DrawOps \cup StemOps \cup MaskOps \cup ArithOps \cup CallFeats \cup {"base"}
+PathFeats == DrawOps \cup StemOps \cup MaskOps \cup {"base"}    \* what the encoder of C04 can emit
 ExFeats   == AllFeats \ {"deep10"}    \* the ten-deep nesting is left to simulation (state space)
 =============================================================================
